@@ -1,8 +1,346 @@
 import Jap.Core.Subcmd
-/-! # C17 — placeholder while the harness is brought up -/
+import Jap.Lemmas.Subcmd
+import Jap.Lemmas.SubcmdMore
+import Jap.Gen.SubcmdShape
+/-!
+# C17 — exactly one subcommand is selected and only its settings survive
+
+Model: `Jap.Subcmd` (Core/Subcmd.lean), a transcription of `get_subcommands`, `handle_subcommands`, the
+`get_subcommand` call of `apply_parsing_links` (`sweep`), `check_required`, `_parse_common`, the subcommand action of
+the command line (`argvCall`) and the way single config sources are loaded (`loadCfgArg`, `applyDefaultCfg`).
+
+`finalParse lay single mode p cfg` is the last stage of every parse method: `_parse_common(cfg, fail_no_subcommand=True)`
+on the configuration `cfg` in which all sources have been merged.  Parser trees `p` have any depth; `lay` (what a selected
+sub-parser contributes: its defaults, or its `parse_env`) is arbitrary, `layFuel` is the instance built from each
+sub-parser's defaults and environment.  All theorems are by structural induction on the parser tree.
+
+Hypotheses that appear and why:
+* `wf p`: what `add_subcommands`/`add_subcommand` guarantee (a subcommand is not called like the subcommand key, names are
+  distinct) and no subcommand is called "".
+* `mode ≠ .none`: the final parse merges the sub-parser's defaults or environment (`defaults=True`, the default).
+* `clean lay mode p cfg`: FORCED by the code.  At every level the value under the subcommand key is null or truthy, and
+  what is stored under a subcommand name is a namespace or null.  Without it the full statement is false:
+  `C17_falsy_name_counterexample` (a config that says `cmd: ""` for an optional subcommand is accepted, the empty name
+  is stored as the choice and the sections of ALL subcommands survive).
+
+FULL STATEMENT (what the property asks), for the record:
+  `finalParse lay single mode p cfg = .ok r → exactlyOne p r = true`   for all `p`, `cfg`.
+It is proved below under `wf`, `mode ≠ .none` and `clean` (`C17_exactly_one_partial`).
+
+Beyond the final stage the property also fails for the code where a source is loaded on its own before it is merged
+(`loadCfgArg`, `applyDefaultCfg`): `get_subcommands` runs on that source alone and deletes sections that a later source
+selects (`C17_early_selection_counterexample`, open finding C17-early-selection-drops-settings); what is proved is that a
+source keeps its sections when it is `quiet` (`C17_source_keeps_sections_partial`).
+-/
 namespace Jap.Props.C17
 open Jap.Subcmd
 
-theorem C17_placeholder : lookup "a" (insert "a" .none []) = some .none := by rfl
+/-! ## C17_exactly_one -/
+
+/-- on success, at every level of the selected path: `result[dest]` is a subcommand name, `result[name]` is a section,
+    no other subcommand has a section; where nothing is selected there is no section -/
+theorem C17_exactly_one_partial (lay : Mode → P → Cfg) (single : Bool) (mode : Mode) (p : P) (cfg r : Cfg)
+    (hwf : wf p = true) (hm : mode ≠ .none) (hcl : clean lay mode p cfg = true)
+    (hok : finalParse lay single mode p cfg = .ok r) :
+    exactlyOne p r = true := by
+  obtain ⟨c1, h1, h2⟩ := parseCommon_ok lay ⟨true, single, mode⟩ true p cfg r hok
+  exact (sound_P p lay ⟨true, single, mode⟩ [] cfg c1 r hwf rfl hm hcl h1 h2).1
+
+/-- one level spelled out: the key, the section, and no section of any other subcommand -/
+theorem C17_exactly_one_top (lay : Mode → P → Cfg) (single : Bool) (mode : Mode) (i : Info) (h : SubHdr)
+    (choices : List (String × P)) (cfg r : Cfg)
+    (hwf : wf (.node i (some h) choices) = true) (hm : mode ≠ .none) (hcl : clean lay mode (.node i (some h) choices) cfg = true)
+    (hok : finalParse lay single mode (.node i (some h) choices) cfg = .ok r) :
+    (∃ n, lookup h.dest r = some (.str n) ∧ n ∈ names choices ∧ isSecAt n r = true ∧
+        ∀ m ∈ names choices, m ≠ n → isSecAt m r = false) ∨
+    (isNoneO (lookup h.dest r) = true ∧ ∀ m ∈ names choices, isSecAt m r = false) := by
+  have h1 := C17_exactly_one_partial lay single mode _ cfg r hwf hm hcl hok
+  rw [exactlyOne] at h1
+  cases hl : lookup h.dest r with
+  | none =>
+    right
+    simp only [hl, List.all_eq_true, Bool.not_eq_true'] at h1
+    exact ⟨rfl, h1⟩
+  | some v =>
+    cases v with
+    | none =>
+      right
+      simp only [hl, List.all_eq_true, Bool.not_eq_true'] at h1
+      exact ⟨rfl, h1⟩
+    | str n =>
+      left
+      simp only [hl, Bool.and_eq_true, List.all_eq_true, Bool.or_eq_true, beq_iff_eq, Bool.not_eq_true'] at h1
+      refine ⟨n, rfl, by simpa using h1.1.1.1, h1.1.1.2, ?_⟩
+      intro m hm' hne
+      rcases h1.1.2 m hm' with e | e
+      · exact absurd e hne
+      · exact e
+    | int _ => simp [hl] at h1
+    | sec _ => simp [hl] at h1
+
+/-! ## C17_complete_settings -/
+
+/-- on success, at every level of the selected path: every setting of a parser that is not about its subcommands is
+    exactly what that parser was given, and the parser of the selected subcommand `n` was given `cfg[n]` over its layer
+    (`merge given layer`: the given values win) -/
+theorem C17_complete_settings (lay : Mode → P → Cfg) (single : Bool) (mode : Mode) (p : P) (cfg r : Cfg)
+    (hwf : wf p = true) (hm : mode ≠ .none) (hcl : clean lay mode p cfg = true)
+    (hok : finalParse lay single mode p cfg = .ok r) :
+    complete lay mode p cfg r := by
+  obtain ⟨c1, h1, h2⟩ := parseCommon_ok lay ⟨true, single, mode⟩ true p cfg r hok
+  exact (sound_P p lay ⟨true, single, mode⟩ [] cfg c1 r hwf rfl hm hcl h1 h2).2.1
+
+/-- the layer of a sub-parser, for its own options: its environment over its defaults (`parse_env`), resp. its defaults -/
+theorem C17_layer_own_settings (fuel : Nat) (single : Bool) (mode : Mode) (q : P) (k : String) (hk : ownKey q k) :
+    lookup k (layFuel fuel single mode q) = lookup k (baseOf mode q) :=
+  layFuel_own fuel single mode q k hk
+
+/-- spelled out for an option `k` of the selected sub-parser `q` under environment parsing:
+    result[n][k] = the given value, else the value from q's environment, else q's default -/
+theorem C17_settings_value (fuel : Nat) (single : Bool) (i : Info) (h : SubHdr) (choices : List (String × P))
+    (cfg r : Cfg) (n : String) (q : P) (k : String)
+    (hwf : wf (.node i (some h) choices) = true)
+    (hcl : clean (layFuel fuel single) .env (.node i (some h) choices) cfg = true)
+    (hok : finalParse (layFuel fuel single) single .env (.node i (some h) choices) cfg = .ok r)
+    (hsel : lookup h.dest r = some (.str n)) (hq : findP n choices = some q) (hk : ownKey q k)
+    (hg : (keysOf (secOf (lookup n cfg))).Nodup ∧ leafAt k (secOf (lookup n cfg)) = true)
+    (he : (keysOf q.info.envc).Nodup ∧ leafAt k q.info.envc = true) :
+    lookup k (secOf (lookup n r)) =
+      match lookup k (secOf (lookup n cfg)) with
+      | some v => some v
+      | .none =>
+        match lookup k q.info.envc with
+        | some v => some v
+        | .none => lookup k q.info.dflt := by
+  have hc := C17_complete_settings (layFuel fuel single) single .env _ cfg r hwf (by decide) hcl hok
+  rw [complete] at hc
+  have hc2 := hc.2
+  simp only [hsel] at hc2
+  rw [completeIn_eq, hq] at hc2
+  rw [complete_own _ _ q _ _ k hc2 hk, lookup_merge_leaf k _ _ hg.1 hg.2, C17_layer_own_settings fuel single .env q k hk]
+  simp only [baseOf]
+  rw [lookup_merge_leaf k _ _ he.1 he.2]
+  cases lookup k (secOf (lookup n cfg)) with
+  | some v => rfl
+  | none => cases lookup k q.info.envc <;> rfl
+
+/-! ## C17_choice -/
+
+/-- on success, at every level of the selected path the subcommand key of the result is what the rule gives for the
+    configuration that level was given: the name stored under the key (command line, config, environment), else the
+    first subcommand in declaration order that has a section; null/absent when there is neither -/
+theorem C17_choice (lay : Mode → P → Cfg) (single : Bool) (mode : Mode) (p : P) (cfg r : Cfg)
+    (hwf : wf p = true) (hm : mode ≠ .none) (hcl : clean lay mode p cfg = true)
+    (hok : finalParse lay single mode p cfg = .ok r) :
+    choiceOK lay mode p cfg r := by
+  obtain ⟨c1, h1, h2⟩ := parseCommon_ok lay ⟨true, single, mode⟩ true p cfg r hok
+  exact (sound_P p lay ⟨true, single, mode⟩ [] cfg c1 r hwf rfl hm hcl h1 h2).2.2
+
+/-- "first for which settings were given": without a name under the key, the selected subcommand has a section and
+    no subcommand declared BEFORE it has one -/
+theorem C17_choice_first_in_declaration_order (h : SubHdr) (ns : List String) (cfg : Cfg) (n : String)
+    (he : explicitOf (lookup h.dest cfg) = .none) (hc : choice h ns cfg = some (.str n)) :
+    isSecAt n cfg = true ∧ ∃ before after, ns = before ++ n :: after ∧ ∀ m ∈ before, isSecAt m cfg = false :=
+  choice_first h ns cfg n he hc
+
+/-- a name under the key wins over sections -/
+theorem C17_choice_named (h : SubHdr) (ns : List String) (cfg : Cfg) (n : String)
+    (hd : lookup h.dest cfg = some (.str n)) : choice h ns cfg = some (.str n) :=
+  choice_explicit h ns cfg n hd
+
+/-- the name written on the command line wins over everything the merged sources say (configs given before it on the
+    command line, the environment, default config files): whole `parse_args` of the model -/
+theorem C17_choice_argv (lay : Mode → P → Cfg) (single : Bool) (mode : Mode) (validate : Bool) (i : Info) (h : SubHdr)
+    (choices : List (String × P)) (items : List (Bool × Cfg)) (n : String) (rest : Argv) (ns r : Cfg) (q : P)
+    (hwf : wf (.node i (some h) choices) = true) (hm : mode ≠ .none) (hq : findP n choices = some q)
+    (hok : parseArgs lay single mode validate (.node i (some h) choices) (.mk items (some (n, rest))) ns = .ok r) :
+    lookup h.dest r = some (.str n) ∧ isSecAt n r = true :=
+  argv_wins lay single mode validate i h choices items n rest ns r q hwf hm hq hok
+
+/-! ## C17_required -/
+
+/-- if, following the rule down the tree, a parser is reached whose subcommand is required and undeterminable, the parse
+    fails with the "expected <key> to be one of" error — at any depth -/
+theorem C17_required (lay : Mode → P → Cfg) (single : Bool) (mode : Mode) (p : P) (cfg : Cfg)
+    (hwf : wf p = true) (hm : mode ≠ .none) (hcl : clean lay mode p cfg = true)
+    (hmiss : missingReq lay mode p cfg = true) :
+    ∃ key, finalParse lay single mode p cfg = .error (.nosub key) := by
+  obtain ⟨key, hk⟩ := missing_P p lay ⟨true, single, mode⟩ [] cfg hwf rfl hm hcl hmiss
+  refine ⟨key, ?_⟩
+  unfold finalParse parseCommon
+  rw [hk]
+  rfl
+
+/-- the top level spelled out: no name, no section, required → error naming the subcommand key -/
+theorem C17_required_top (lay : Mode → P → Cfg) (single : Bool) (mode : Mode) (i : Info) (h : SubHdr)
+    (choices : List (String × P)) (cfg : Cfg)
+    (hn : isNoneO (lookup h.dest cfg) = true) (hs : ∀ m ∈ names choices, isSecAt m cfg = false) (hr : h.required = true) :
+    finalParse lay single mode (.node i (some h) choices) cfg = .error (.nosub [h.dest]) := by
+  have hch : choice h (names choices) cfg = .none := by
+    have he : explicitOf (lookup h.dest cfg) = .none := by
+      cases hl : lookup h.dest cfg with
+      | none => rfl
+      | some v => cases v <;> simp_all [isNoneO, explicitOf]
+    have hk : subKeys (names choices) cfg = [] := by
+      simp only [subKeys, List.filter_eq_nil_iff]
+      intro m hm'
+      simp [hs m hm']
+    simp [choice, he, hk]
+  unfold finalParse parseCommon
+  rw [handle_node_none _ _ [] i h choices cfg hch]
+  simp [hr]
+
+/-- not required: the parse succeeds, nothing is added: no subcommand key value, no section -/
+theorem C17_optional (lay : Mode → P → Cfg) (single : Bool) (mode : Mode) (i : Info) (h : SubHdr)
+    (choices : List (String × P)) (cfg : Cfg)
+    (hch : choice h (names choices) cfg = .none) (hr : h.required = false) :
+    finalParse lay single mode (.node i (some h) choices) cfg = .ok cfg ∧
+    isNoneO (lookup h.dest cfg) = true ∧ ∀ m ∈ names choices, isSecAt m cfg = false := by
+  refine ⟨optional_none lay _ true true i h choices cfg hch hr, (choice_none_facts h _ cfg hch).1, ?_⟩
+  intro m hm'
+  have hk := (choice_none_facts h _ cfg hch).2
+  cases hs : isSecAt m cfg with
+  | false => rfl
+  | true =>
+    have : m ∈ subKeys (names choices) cfg := (mem_subKeys _ _ _).2 ⟨hm', hs⟩
+    rw [hk] at this
+    cases this
+
+/-! ## settings that are not about subcommands are never touched (all flags, all configurations) -/
+
+theorem C17_global_options_untouched (lay : Mode → P → Cfg) (fl : Flags) (validate : Bool) (p : P) (cfg r : Cfg)
+    (hok : parseCommon lay fl true validate p cfg = .ok r) (k : String) (hk : ownKey p k) :
+    lookup k r = lookup k cfg :=
+  parseCommon_frame lay fl validate p cfg r hok k hk
+
+/-! ## sources loaded on their own -/
+
+/-- a config argument (`--cfg`, the config environment variable) keeps every section it holds when it does not itself
+    name a subcommand or holds at most one section (`quiet`) -/
+theorem C17_source_keeps_sections_partial (i : Info) (h : SubHdr) (choices : List (String × P)) (tree t : Cfg)
+    (hq : quiet h (names choices) tree = true)
+    (hok : loadCfgArg (.node i (some h) choices) tree = .ok t) (k : String) :
+    isSecAt k t = isSecAt k tree :=
+  loadCfgArg_keeps i h choices tree t hq hok k
+
+/-! ## non-vacuity and witnesses -/
+
+def leafP (d : Cfg) : P := .node ⟨d, []⟩ .none []
+
+/-- a three-level tree: root (required `subcommand`) → fit (optional `cmd`, env lr=7) → sgd | adam; test -/
+def exTree : P :=
+  .node ⟨[("g", .int 1), ("subcommand", .none)], []⟩ (some ⟨"subcommand", true⟩)
+    [("fit", .node ⟨[("lr", .int 1), ("cmd", .none)], [("lr", .int 7)]⟩ (some ⟨"cmd", false⟩)
+        [("sgd", leafP [("m", .int 0)]), ("adam", leafP [("b", .int 9)])]),
+     ("test", leafP [("k", .int 5)])]
+
+/-- settings for two subcommands, no name: `test` is written first in the config, `fit` is declared first -/
+def exCfg : Cfg :=
+  [("g", .int 2), ("subcommand", .none), ("test", .sec [("k", .int 6)]), ("fit", .sec [("sgd", .sec [("m", .int 3)])])]
+
+/-- the hypotheses of the theorems hold for it -/
+example : wf exTree = true ∧ clean (layFuel 8 true) .env exTree exCfg = true := by decide
+
+/-- and the parse gives: fit selected (declaration order), test removed, fit.lr from the environment, fit.cmd = sgd
+    selected at the second level, the given m=3 over the default 0 -/
+example : finalParse (layFuel 8 true) true .env exTree exCfg =
+    .ok [("g", .int 2), ("subcommand", .str "fit"),
+         ("fit", .sec [("lr", .int 7), ("cmd", .str "sgd"), ("sgd", .sec [("m", .int 3)])])] := by rfl
+
+/-- a required nested subcommand that cannot be determined: error at depth 2, whatever the depth -/
+example : missingReq (layFuel 8 true) .dflt
+    (.node ⟨[], []⟩ (some ⟨"subcommand", true⟩) [("a", .node ⟨[], []⟩ (some ⟨"cmd", true⟩) [("b", leafP [])])])
+    [("subcommand", .str "a")] = true := by decide
+
+example : finalParse (layFuel 8 true) true .dflt
+    (.node ⟨[], []⟩ (some ⟨"subcommand", true⟩) [("a", .node ⟨[], []⟩ (some ⟨"cmd", true⟩) [("b", leafP [])])])
+    [("subcommand", .str "a")] = .error (.nosub ["a", "cmd"]) := by rfl
+
+def twoP : P := .node ⟨[], []⟩ (some ⟨"cmd", false⟩) [("a", leafP [("x", .int 1)]), ("b", leafP [("y", .int 2)])]
+
+/-- FULL statement fails: `cmd: ""` for an optional subcommand is accepted, the empty name stays as the choice and the
+    sections of both subcommands survive (the code tests `if subcommand` where it means `is not None`) -/
+theorem C17_falsy_name_counterexample :
+    finalParse (layFuel 8 true) true .dflt twoP [("cmd", .str ""), ("a", .sec [("x", .int 5)]), ("b", .sec [("y", .int 6)])]
+      = .ok [("cmd", .str ""), ("a", .sec [("x", .int 5)]), ("b", .sec [("y", .int 6)])]
+    ∧ exactlyOne twoP [("cmd", .str ""), ("a", .sec [("x", .int 5)]), ("b", .sec [("y", .int 6)])] = false
+    ∧ clean (layFuel 8 true) .dflt twoP [("cmd", .str ""), ("a", .sec [("x", .int 5)]), ("b", .sec [("y", .int 6)])] = false := by
+  refine ⟨by rfl, by decide, by decide⟩
+
+/-- `handle_subcommands` ALONE does not establish the property: with an explicit name and ONE other section the
+    section survives the call (`len(subcommand_keys) > 1` is false) … -/
+theorem C17_handle_alone_counterexample :
+    handle (layFuel 8 true) ⟨true, true, .dflt⟩ [] twoP [("cmd", .str "a"), ("b", .sec [("y", .int 6)])]
+      = .ok [("cmd", .str "a"), ("b", .sec [("y", .int 6)]), ("a", .sec [("x", .int 1)])] := by rfl
+
+/-- … it is the `get_subcommand` call at the head of `apply_parsing_links` that removes it -/
+theorem C17_sweep_completes :
+    finalParse (layFuel 8 true) true .dflt twoP [("cmd", .str "a"), ("b", .sec [("y", .int 6)])]
+      = .ok [("cmd", .str "a"), ("a", .sec [("x", .int 1)])] := by rfl
+
+def threeP : P :=
+  .node ⟨[("subcommand", .none)], []⟩ (some ⟨"subcommand", true⟩)
+    [("fit", leafP [("alpha", .int 1)]), ("test", leafP [("beta", .int 2)]), ("run", leafP [("gamma", .int 3)])]
+
+/-- open finding C17-early-selection-drops-settings: a config argument that names `test` and holds sections for `run`
+    and `fit` loses both while it is loaded … -/
+theorem C17_early_selection_counterexample :
+    loadCfgArg threeP [("subcommand", .str "test"), ("run", .sec [("gamma", .int 30)]), ("fit", .sec [("alpha", .int 10)])]
+      = .ok [("subcommand", .str "test")]
+    ∧ quiet ⟨"subcommand", true⟩ ["fit", "test", "run"]
+        [("subcommand", .str "test"), ("run", .sec [("gamma", .int 30)]), ("fit", .sec [("alpha", .int 10)])] = false := by
+  refine ⟨by rfl, by decide⟩
+
+/-- … so that `--cfg=<that> run` ends with the DEFAULT gamma = 3 instead of the given 30 (whole `parse_args` of the model) … -/
+theorem C17_early_selection_pipeline :
+    parseArgs (layFuel 8 true) true .dflt true threeP
+      (.mk [(true, [("subcommand", .str "test"), ("run", .sec [("gamma", .int 30)]), ("fit", .sec [("alpha", .int 10)])])]
+        (some ("run", .mk [] .none))) []
+      = .ok [("subcommand", .str "run"), ("run", .sec [("gamma", .int 3)])] := by rfl
+
+/-- … whereas with ONE extra section the given value is kept -/
+theorem C17_early_selection_one_section_kept :
+    parseArgs (layFuel 8 true) true .dflt true threeP
+      (.mk [(true, [("subcommand", .str "test"), ("run", .sec [("gamma", .int 30)])])] (some ("run", .mk [] .none))) []
+      = .ok [("subcommand", .str "run"), ("run", .sec [("gamma", .int 30)])] := by rfl
+
+/-- the hypothesis `quiet` of the partial theorem is satisfiable by a source with several sections -/
+example : quiet ⟨"subcommand", true⟩ ["fit", "test", "run"]
+    [("run", .sec [("gamma", .int 30)]), ("fit", .sec [("alpha", .int 10)])] = true := by decide
+
+/-! ## ties: the regenerated shape of the code equals the statements the model transcribes
+
+`Jap.Gen.SubcmdShape` is rewritten from /repo's working tree on every run (harness/extractors/subcmd_shape.py). -/
+
+/-- `get_subcommands`: the settings keys in declaration order, the explicit test, the pick test and the picked index
+    (`subcommand_keys[0]`: `getSubCore` takes `keys.head?`), the removal test and filter, the failure block -/
+theorem tie_get_subcommands :
+    Jap.Gen.SubcmdShape.keysExpr = Shape.keysExpr ∧ Jap.Gen.SubcmdShape.explicitTest = Shape.explicitTest ∧
+    Jap.Gen.SubcmdShape.pickTest = Shape.pickTest ∧ Jap.Gen.SubcmdShape.pickFromEnd = false ∧ Jap.Gen.SubcmdShape.pickOffset = 0 ∧
+    Jap.Gen.SubcmdShape.removeTest = Shape.removeTest ∧ Jap.Gen.SubcmdShape.removeFilter = Shape.removeFilter ∧
+    Jap.Gen.SubcmdShape.singleTest = Shape.singleTest ∧ Jap.Gen.SubcmdShape.failTests = Shape.failTests ∧
+    Jap.Gen.SubcmdShape.returns = Shape.returns := ⟨rfl, rfl, rfl, rfl, rfl, rfl, rfl, rfl, rfl, rfl⟩
+
+/-- `handle_subcommands`: which layer is computed, `merge_config(given or Namespace(), layer)` (given values first:
+    `mergeLayer` is `merge given layer`), the recursion with the key prefix -/
+theorem tie_handle_subcommands :
+    Jap.Gen.SubcmdShape.layerCalls = Shape.layerCalls ∧ Jap.Gen.SubcmdShape.mergeCall = Shape.mergeCall ∧
+    Jap.Gen.SubcmdShape.givenFirst = true ∧ Jap.Gen.SubcmdShape.recurseCall = Shape.recurseCall := ⟨rfl, rfl, rfl, rfl⟩
+
+/-- the argv action, `add_subcommand`, the head of `apply_parsing_links` (`sweep`) -/
+theorem tie_argv_and_links :
+    Jap.Gen.SubcmdShape.argvAction = Shape.argvAction ∧ Jap.Gen.SubcmdShape.addSubcommand = Shape.addSubcommand ∧
+    Jap.Gen.SubcmdShape.applyLinksHead = Shape.applyLinksHead := ⟨rfl, rfl, rfl⟩
+
+/-- how single sources are loaded: `apply_config` (not single, links skipped, `_fail_no_subcommand=False`: `loadCfgArg`),
+    `get_defaults` (`fail_no_subcommand=False`, fix f6d3709: `applyDefaultCfg`), the defaults of `_parse_common` and
+    `parse_string`, the subcommand branch of `_load_env_vars` -/
+theorem tie_sources :
+    Jap.Gen.SubcmdShape.applyConfigWith = Shape.applyConfigWith ∧ Jap.Gen.SubcmdShape.applyConfigKwargs = Shape.applyConfigKwargs ∧
+    Jap.Gen.SubcmdShape.defaultCfgParseCommon = Shape.defaultCfgParseCommon ∧
+    Jap.Gen.SubcmdShape.parseCommonFailDefault = Shape.parseCommonFailDefault ∧
+    Jap.Gen.SubcmdShape.parseStringPrivate = Shape.parseStringPrivate ∧
+    Jap.Gen.SubcmdShape.parseArgsParseCommonKw = Shape.parseArgsParseCommonKw ∧
+    Jap.Gen.SubcmdShape.envBranch = Shape.envBranch := ⟨rfl, rfl, rfl, rfl, rfl, rfl, rfl⟩
 
 end Jap.Props.C17
